@@ -254,6 +254,8 @@ func stmtForms(levels int) []T {
 			// if-else over pairs: every body against a rotating partner and against a plain value
 			e := bodies[(i*7+3)%len(bodies)]
 			out = append(out, IfE(c, b, e), IfE(cf, b, e), IfE(c, b, I(6)), IfE(cf, I(6), b))
+			// and against itself (both branches return / yield / assign / loop)
+			out = append(out, IfE(c, b, b), IfE(cf, b, b))
 		}
 		return out
 	}
